@@ -118,6 +118,13 @@ def nsiCrossClosenessCentrality : E := w2 /ₑ .wsum (g 1 0 *ₑ .dplus 1 0)
 def nsiCrossAveragePathLength : E :=
   .wsum (g 0 0 *ₑ .wsum (g 1 0 *ₑ .dplus 1 0)) /ₑ (w1 *ₑ w1)
 
+/-- `nsi_internal_local_clustering(L)` = `nsi_cross_local_clustering(L, L)`,
+`nsi_internal_closeness_centrality(L)` = `nsi_cross_closeness_centrality(L, L)` (group 0) -/
+def internalTri : E :=
+  .wsum (.wsum (g 0 1 *ₑ g 0 0 *ₑ .aplus 2 1 *ₑ .aplus 1 0 *ₑ .aplus 0 2))
+def nsiInternalLocalClustering : E := internalTri /ₑ (nsiInternalDegree *ₑ nsiInternalDegree)
+def nsiInternalClosenessCentrality : E := w1 /ₑ .wsum (g 0 0 *ₑ .dplus 1 0)
+
 /-- the catalogue: (name, arity, expression); `tw` = typical weight -/
 def all (tw : Rat) : List (String × Nat × E) := [
   ("total_node_weight", 0, totalW),
@@ -160,6 +167,8 @@ def all (tw : Rat) : List (String × Nat × E) := [
   ("nsi_cross_global_clustering", 0, nsiCrossGlobalClustering),
   ("nsi_cross_transitivity", 0, nsiCrossTransitivity),
   ("nsi_cross_closeness_centrality", 1, nsiCrossClosenessCentrality),
-  ("nsi_cross_average_path_length", 0, nsiCrossAveragePathLength)]
+  ("nsi_cross_average_path_length", 0, nsiCrossAveragePathLength),
+  ("nsi_internal_local_clustering", 1, nsiInternalLocalClustering),
+  ("nsi_internal_closeness_centrality", 1, nsiInternalClosenessCentrality)]
 
 end Pyunicorn.Nsi.M
